@@ -51,7 +51,7 @@ def main():
         try:
             results = meta.get('detection', {})
             for cid in (only if only else [pid] + also):
-                r = sh('VERIF_REPO=%s VERIF_OUT=%s ./check %s --tier %s' % (REPO, '/tmp/matrix_out' if REPO != '/repo' else os.path.join(VERIF, 'out'), cid, tier), cwd=VERIF)
+                r = sh('VERIF_EVIDENCE_DIR=/tmp/matrix_out/evidence VERIF_REPO=%s VERIF_OUT=%s ./check %s --tier %s' % (REPO, '/tmp/matrix_out' if REPO != '/repo' else os.path.join(VERIF, 'out'), cid, tier), cwd=VERIF)
                 sigs = [l.strip().split(' :: ')[0] for l in r.stdout.splitlines() if l.startswith('  C')]
                 results['%s:%s' % (cid, tier)] = {'rc': r.returncode, 'new_signatures': sigs[:8]}
                 print('%-8s %s %-8s rc=%d %s' % (s, cid, tier, r.returncode, '; '.join(sigs[:3])[:200]))
